@@ -121,6 +121,42 @@ class DSep:
         return False
 
 
+class WalkSep:
+    """d-connection in the WALK formulation used by lean/Y0/Spec/LatentSpec.lean (`Reach` / `DConn`):
+    states (node, arrived-along-an-edge-into-the-node?), colliders need a descendant-or-self in Z, other inner
+    nodes must be outside Z.  Used to cross-check the specification against the path formulation."""
+
+    def __init__(self, nodes, edges):
+        self.nodes = list(nodes)
+        es = {(u, v) for u, v in edges}
+        self.ch, self.pa = {}, {}
+        for u, v in es:
+            self.ch.setdefault(u, []).append(v)
+            self.pa.setdefault(v, []).append(u)
+        d = descendants(es)
+        self.desc = {v: frozenset(d(v)) for v in self.nodes}
+
+    def connected(self, a, b, Z):
+        Z = frozenset(Z)
+        ch, pa = self.ch, self.pa
+        seen = set()
+        todo = [(c, True) for c in ch.get(a, ())] + [(p, False) for p in pa.get(a, ())]
+        while todo:
+            st = todo.pop()
+            if st in seen:
+                continue
+            seen.add(st)
+            x, down = st
+            if down:
+                if x not in Z:
+                    todo += [(c, True) for c in ch.get(x, ())]
+                if self.desc[x] & Z:
+                    todo += [(p, False) for p in pa.get(x, ())]
+            elif x not in Z:
+                todo += [(p, False) for p in pa.get(x, ())] + [(c, True) for c in ch.get(x, ())]
+        return (b, True) in seen or (b, False) in seen
+
+
 def canonical_dag(observed, di, bi):
     """ADMG -> DAG with one fresh exogenous latent per bidirected edge; returns (nodes, edges, latent)"""
     nodes = list(observed)
